@@ -1,4 +1,5 @@
 import Gtree.Lemmas.EntryFacts
+import Gtree.Lemmas.HeapFormat
 import Gtree.Lemmas.SourceConfig
 import Gtree.Model.Api
 import Gtree.Lemmas.JsonTree
@@ -102,4 +103,21 @@ theorem C04_facts_entry_points_configuration : Facts.entryConfig = expectedEntry
     `OutputProgrammably`, `MkdirProgrammably`, `VerifyProgrammably`, `WalkProgrammably`, `WalkIterProgrammably`) has, word for
     word, the body of the function that replaces it. -/
 theorem C04_facts_aliases_identical : Facts.aliasBodiesEqual.all (fun e => e.2) = true := aliases_identical
+end Gtree
+
+namespace Gtree
+/-- Tie to the source, pointer code included (heap mode of /verif/translate, regenerated on every run): THE RECORDS HANDED
+    TO THE ENCODERS.  `toFormattedNode` of simple_tree_spreader.go with `jsonNode.setChild` / `getChild` (`yamlNode` and
+    `tomlNode` have the same methods; that their field tags are `value` / `children` is a regenerated fact), translated over
+    two heaps — the nodes, and the records with their allocator.  For every heap that holds a tree, a fresh childless
+    record named like the root, and every fuel above the tree's size: the record heap afterwards holds, at that record,
+    exactly the model's `toFormatted t` — same names, same order of children, same nesting (each child's record is the
+    one just appended: the loop invariant `len(Children) = i`) — and no older record was touched.  `C04_formatted_iso`
+    (`(toFormatted t).toT = t`) and the JSON round trip are therefore about what this code hands to the encoder. -/
+theorem C04_formatted_tree_is_the_source (h : SrcH.Heap) (t : T) (hj : SrcH.HeapJ) (alj : Nat) (p par fp : Nat)
+    (lvl fuel : Nat) (hr : SrcH.Repr h t p par lvl) (hf : t.size ≤ fuel) (hfp : fp < alj)
+    (hn : (hj fp).Name = t.name) (hch : (hj fp).Children = []) :
+    ∃ hj' alj', SrcH.toFormattedNode fuel h hj alj p fp = some (hj', alj', fp) ∧ alj ≤ alj' ∧
+      SrcH.ReprJ hj' 0 alj' (toFormatted t) fp ∧ (∀ q, q < alj → q ≠ fp → hj' q = hj q) :=
+  SrcH.toFormattedNode_heap h t hj alj p par fp lvl fuel hr hf hfp hn hch
 end Gtree
